@@ -87,6 +87,12 @@ pub fn run(
     let mut solution: Vec<Vec<EdgeTraversal>> = vec![tsp];
     let mut ksp_it: u64 = 0;
     loop {
+        #[cfg(feature = "verif_hooks")]
+        crate::verif::emit(crate::verif::Event::KspOuter {
+            algorithm: "single_via",
+            accepted: solution.len(),
+            k: query.k,
+        });
         if termination.terminate_search(query.k, solution.len()) {
             log::debug!(
                 "ksp:{} solution contains {} entries, quitting due to termination function {}",
@@ -102,6 +108,11 @@ pub fn run(
                 break;
             }
             Some((intersection_vertex_id, _)) => {
+                #[cfg(feature = "verif_hooks")]
+                crate::verif::emit(crate::verif::Event::KspInner {
+                    algorithm: "single_via",
+                    index: intersection_vertex_id.0,
+                });
                 let mut accept_route = true;
                 // create the i'th route by backtracking both trees and concatenating the result
                 let fwd_route = backtrack::vertex_oriented_route(
